@@ -65,6 +65,7 @@ type Scenario struct {
 	MapSites   []string      // substrings of MapRange sites explored under the scheduler
 	NoRun      bool          // do not call Run() (pure API scenarios)
 	Namespaces []string      // namespace admitter (as `-n`)
+	Snap       bool          // take a GetProcessesState snapshot at every quiescent choice point
 	AuxAsEnv   bool          // the completion of an auxiliary command is an environment event (else a thread step)
 	Setup      func(w *World)
 	Check      func(w *World) []Violation
@@ -170,6 +171,7 @@ type Snapshot struct {
 	Step   int
 	States map[string]types.ProcessState
 	Alive  map[string]int // live fake processes per key
+	Pos    int            // trace length when the snapshot was taken
 }
 
 func (w *World) now() time.Duration { return time.Since(w.t0) }
@@ -592,6 +594,11 @@ func (w *World) control(prefix []int) {
 		quiescent := len(thr) == 0
 		w.noteState(threads, evs, quiescent)
 		nEnv := len(evs) + len(envThr)
+		if quiescent && sc.Snap {
+			if sn := w.TakeSnapshot(); sn != nil {
+				w.Snapshots = append(w.Snapshots, *sn)
+			}
+		}
 		if quiescent && nEnv == 0 {
 			// nothing can move but time
 			if w.finished() && idle >= 2 {
@@ -845,6 +852,7 @@ func (w *World) TakeSnapshot() *Snapshot {
 	}
 	w.mu.Lock()
 	sn.Alive = w.liveCountLocked()
+	sn.Pos = len(w.trace)
 	w.mu.Unlock()
 	return &sn
 }
